@@ -36,7 +36,7 @@ type catEntry struct {
 	Slow bool
 	// Attempts: the designated test itself randomises (math/rand) the order of its operations, so it
 	// may legitimately pass against the faulty server now and then; it must fail at least once in
-	// Attempts runs (default 1).
+	// Attempts runs (default and minimum 3).
 	Attempts int
 }
 
@@ -494,6 +494,86 @@ func catalogue() []catEntry {
 			FwdRefs:    bp(true),
 			Slow:       true, // held operations are never answered: the client waits for the one-minute timeout
 		},
+		// --- requirements behind the plain "this works" tests: each of them must be able to fail ---
+		unsupportedKind("valid-additions-refused", names("Add IPv4 entry that can be programmed on the server - with RIB ACK",
+			"Add IPv4 entries that are resolved to a next-hop-group containing multiple next-hops (multiple ModifyRequests) - with RIB ACK",
+			"Add IPv4 entries that are resolved to a next-hop-group containing multiple next-hops (single ModifyRequest) - with RIB ACK",
+			"Add-Delete-Add for IPv4Entry - RIB ACK"),
+			func(o *spb.AFTOperation) bool { return o.GetOp() == spb.AFTOperation_ADD && opKind(o) == "v4" }),
+		unsupportedKind("next-hop-groups-refused", names("Add next-hop-group entry that can be resolved on the server, no referencing IPv4 entries - with RIB ACK",
+			"Delete NHG entry successfully - RIB ACK"),
+			func(o *spb.AFTOperation) bool { return o.GetOp() == spb.AFTOperation_ADD && opKind(o) == "nhg" }),
+		unsupportedKind("deletes-of-installed-entries-refused", names("Delete IPv4 entry within default network instance - RIB ACK",
+			"Delete NH entry successfully - RIB ACK", "Delete NHG entry successfully - RIB ACK", "Add-Delete-Add for IPv4Entry - RIB ACK"),
+			func(o *spb.AFTOperation) bool { return o.GetOp() == spb.AFTOperation_DELETE }),
+		unsupportedKind("entry-metadata-refused", names("Add Metadata for IPv4 entry", "Add IPv6 entry with metadata"),
+			func(o *spb.AFTOperation) bool {
+				return o.GetIpv4().GetIpv4Entry().GetEntryMetadata() != nil || o.GetIpv6().GetIpv6Entry().GetEntryMetadata() != nil
+			}),
+		unsupportedKind("cross-instance-group-reference-refused", names("Add IPv4 Entry that references a NHG in a different network instance"),
+			func(o *spb.AFTOperation) bool {
+				n := o.GetIpv4().GetIpv4Entry().GetNextHopGroupNetworkInstance().GetValue()
+				return n != "" && n != o.GetNetworkInstance()
+			}),
+		{
+			Name:       "second-next-hop-with-identical-contents-refused",
+			Designated: names("Add two NextHops with identical contents"),
+			Fault: func() *faults.Fault {
+				return &faults.Fault{Request: func(s *faults.Sess, req *spb.ModifyRequest) *spb.ModifyRequest {
+					return filterOps(s, req, func(o *spb.AFTOperation) *spb.ModifyResponse {
+						if o.GetOp() != spb.AFTOperation_ADD || opKind(o) != "nh" {
+							return nil
+						}
+						st, err := obs.FromRIB(s.P.Inner.VerifRIB())
+						if err != nil {
+							return nil
+						}
+						for k, p := range st {
+							if nh, ok := p.(*aftpb.Afts_NextHopKey); ok && k.Kind == "nh" && nh.GetIndex() != o.GetNextHop().GetIndex() &&
+								proto.Equal(model.Canon(&aftpb.Afts_NextHopKey{Index: 1, NextHop: nh.GetNextHop()}), model.Canon(&aftpb.Afts_NextHopKey{Index: 1, NextHop: o.GetNextHop().GetNextHop()})) {
+								return failResult(o.GetId(), "a next-hop with these contents exists")
+							}
+						}
+						return nil
+					})
+				}}
+			},
+		},
+		{
+			Name:       "session-parameters-never-accepted",
+			Designated: names("Modify RPC Connection with Election ID", "Election - Matching parameters for two clients in election"),
+			Fault: func() *faults.Fault {
+				return &faults.Fault{Request: func(s *faults.Sess, req *spb.ModifyRequest) *spb.ModifyRequest {
+					if req.GetParams() != nil {
+						s.Reject(status.Error(codes.Unimplemented, "session parameters are not supported"))
+						return nil
+					}
+					return req
+				}}
+			},
+		},
+		{
+			// ("Modify RPC connection" is not designated: its declared intent is that the server
+			// sends nothing on a fresh stream, and it returns as soon as nothing is outstanding)
+			Name:       "modify-rpc-unavailable",
+			Designated: names("Modify RPC Connection with Election ID"),
+			Fault: func() *faults.Fault {
+				return &faults.Fault{ModifyErr: status.Error(codes.Unimplemented, "Modify is not implemented")}
+			},
+		},
+		{
+			Name:       "second-session-with-matching-parameters-refused",
+			Designated: names("Election - Matching parameters for two clients in election"),
+			Fault: func() *faults.Fault {
+				return &faults.Fault{Request: func(s *faults.Sess, req *spb.ModifyRequest) *spb.ModifyRequest {
+					if req.GetParams() != nil && s.P.LiveNegotiated(s) > 0 {
+						s.Reject(status.Error(codes.FailedPrecondition, "another client is connected"))
+						return nil
+					}
+					return req
+				}}
+			},
+		},
 		unsupportedKind("mpls-unsupported", func(t *compliance.TestSpec) bool { return t.In.RequiresMPLS }, func(o *spb.AFTOperation) bool { return opKind(o) == "mpls" }),
 		unsupportedKind("ipv6-unsupported", func(t *compliance.TestSpec) bool { return t.In.RequiresIPv6 }, func(o *spb.AFTOperation) bool { return opKind(o) == "v6" }),
 		unsupportedKind("nh-nhg-in-non-default-instance-refused", func(t *compliance.TestSpec) bool { return t.In.RequiresNonDefaultNINHG }, func(o *spb.AFTOperation) bool {
@@ -582,8 +662,10 @@ func runFaulty(c Case) *ev.Verdict {
 		f.Name = e.Name
 	}
 	attempts := e.Attempts
-	if attempts < 1 {
-		attempts = 1
+	if attempts < 3 {
+		// a test that passes against the faulty server is run again (a loaded machine can hide
+		// a fault that hinges on when two clients connect): "cannot detect" means never in three
+		attempts = 3
 	}
 	var fo outcome
 	for a := 0; a < attempts; a++ {
